@@ -22,11 +22,20 @@
 //!              composes the request several times, like a retransmitting
 //!              transport) and over the real `net::client::dgram::Connection`
 //!              on a fake network that loses datagrams.
+//! * `keygen`   keys made by `Key::generate`: reference keyed with the exported
+//!              secret; signing length / minimum MAC length as requested, as
+//!              client, server and client sequence; twin made by `Key::new`.
+//!
+//! `tamper` applies every alteration both to ordinary answers and (client
+//! sides, 1 case in 4) to signed BADTIME error responses, whose untampered
+//! outcome is `ServerBadTime` with the signed clocks; `txn` alters one bit of
+//! the server's own BADTIME response.
 use crate::engine::*;
 use std::collections::BTreeMap;
 
 pub mod common;
 pub mod honest;
+pub mod keygen;
 pub mod refsig;
 pub mod seq;
 pub mod tamper;
@@ -96,6 +105,19 @@ const NEEDED: &[&str] = &[
     "tamper/other-data-of-other-length-added",
     "client-wrapper/continued-after-rejection",
     "client-wrapper/signed-message-after-rejection-rejected",
+    "tamper/signed-badtime-response",
+    "tamper/signed-badtime-response-exact-rejection",
+    "tampered-badtime-response-legitimately-reported",
+    "genuine-badtime-response-after-rejected-answer-reported",
+    "badtime-response-altered-in-transit-rejected",
+    "keygen/min-and-signing-length-differ",
+    "keygen/request-of-generated-key-conforms",
+    "keygen/answer-of-generated-key-conforms",
+    "keygen/sequence-verified-by-generated-key",
+    "keygen/short-mac-refused-by-generated-key",
+    "keygen/truncated-mac-accepted-by-generated-key",
+    "keygen/exchange-with-twin-verified",
+    "keygen/out-of-bounds-rejected",
     "middleware-exchange-verified",
     "client-wrapper/verified",
     "client-wrapper/rejected",
@@ -124,13 +146,18 @@ fn health(c: &BTreeMap<String, u64>, _thorough: bool) -> Result<(), String> {
             return Err(format!("no tampering delivered to {side}"));
         }
     }
+    for side in ["CliTxn", "SeqFirst", "SeqSub"] {
+        if c.get(&format!("badtime-response/{side}")).copied().unwrap_or(0) == 0 {
+            return Err(format!("no tampered signed BADTIME response delivered to {side}"));
+        }
+    }
     Ok(())
 }
 
 pub fn prop() -> Option<Prop> {
     Some(Prop {
         id: "C11",
-        rule: "case = keys (algorithm, secret, name in two cases, min_mac_len, signing_len per side) + messages + clocks (+ signed/unsigned pattern, + one tampering); non-trivial = a truncating key policy is involved, or a sequence contains at least one unsigned message, or a receiver clock is within 1 s of a fudge-window edge, or the tampering hits a TSIG RR field / the TSIG position (not just a payload bit); distinct by the decoded case",
+        rule: "case = keys (algorithm, secret, name in two cases, min_mac_len, signing_len per side; made by Key::new or Key::generate) + messages + clocks (+ signed/unsigned pattern, + one tampering); non-trivial = a truncating key policy is involved, or a sequence contains at least one unsigned message, or a receiver clock is within 1 s of a fudge-window edge, or the tampering hits a TSIG RR field / the TSIG position (not just a payload bit); distinct by the decoded case",
         assumptions: &[
             "independent reference props/c11/refsig.rs: HMAC built on ring::digest (hash primitive shared with the library, HMAC construction not), RFC 8945 digest layout; cross-checked against RFC 4231 / RFC 2202 vectors, the signed exchange in test-data/server/tsig.rpl and vectors from a separate Python implementation",
             "expected error codes are RFC 8945 sections 5.2-5.3 as read by the harness author (FORMERR for misplaced/duplicate/uninterpretable TSIG and MAC sizes outside 5.2.2.1, BADKEY, BADSIG, BADTRUNC, BADTIME signed with 6 octets of server time)",
@@ -143,6 +170,7 @@ pub fn prop() -> Option<Prop> {
             SubCheck::new("seq", seq::run_seq, 100_000, 600_000, 1200),
             SubCheck::new("tamper", tamper::run_tamper, 500_000, 6_000_000, 1000),
             SubCheck::new("wrappers", wrappers::run_wrappers, 60_000, 600_000, 600),
+            SubCheck::new("keygen", keygen::run_keygen, 40_000, 400_000, 500),
         ],
         health: Some(health),
         extra: None,
